@@ -289,7 +289,7 @@ func checkC09(p *Prog, r *Report) {
 				}
 			}
 		})
-		r.Cond(found, "C09/FILTER-PROTECTS", funcKey(s.Fn)+" → "+s.Label, p.Pos(instrPos(s.Instr)),
+		r.Cond(found, "C09/FILTER-PROTECTS", "delete walk → "+s.Label, p.Pos(instrPos(s.Instr)),
 			"no filter consultation before the removal: the receiver never sees the user's exclude rules, so --delete removes excluded entries")
 	}
 	r.Assume("isTopDir by name '.'; the deletion walk starts at the root of DestRoot.FS() (checked under C05/DELETE-CONFINED)")
